@@ -10,7 +10,7 @@ CASE_TYPE = 'C19.case'
 EXTRA_IMPORTS = re_.RETRY_IMPORTS
 RULE = ('per-attempt outcomes {response ok, response with error (listed / unlisted code), transport exception (listed / subclass / '
         'unlisted), undecodable body, invalid response, identity mismatch, KeyboardInterrupt, asyncio.CancelledError} in every sequence '
-        'of length attempts+1 for strategies of 0..2 (quick) / 0..3 (thorough) attempts (plus no strategy), x 0..3 tracers (every second one a falsy object; handed over as a list, a tuple, a generator or an iterator) x single / '
+        'of length attempts+1 for strategies of 0..2 (quick) / 0..3 (thorough) attempts (plus no strategy), x 0..3 tracers (distinct objects that compare equal to each other, every second one a falsy object; handed over as a list, a tuple, a generator or an iterator) x single / '
         'batch / notification x caller-supplied vs default trace context x sync / async; a third of the cases from inside an `except` block of the caller; a quarter of the cases on a client that has already served a retried request. distinct = distinct full case; non-trivial = '
         'at least one tracer event')
 EXHAUSTIVE = {'quick': False, 'thorough': False}
